@@ -28,7 +28,9 @@ func init() {
 	verifProps["C20-e2e"] = vh.Prop{List: func(tier string) []vh.Scenario {
 		var out []vh.Scenario
 		for _, sc := range c12Scens(tier) {
-			if sc.Fault == "none" && sc.Closers == 1 && sc.CloseInCB == 0 && (sc.Stream == "ts-va" || sc.Stream == "fmp4-va" || sc.Stream == "fmp4-v+a" || sc.Stream == "ts-big") {
+			ends := sc.Fault == "none" && (sc.Stream == "ts-va" || sc.Stream == "fmp4-va" || sc.Stream == "fmp4-v+a" || sc.Stream == "ts-big")
+			held := sc.Fault == "stall" && sc.Stream == "ll" && sc.Policy == 0 // Low-Latency: a request the server holds when Close arrives
+			if (ends || held) && sc.Closers == 1 && sc.CloseInCB == 0 {
 				out = append(out, vh.Scenario{Name: sc.name(), Weight: 30})
 			}
 		}
